@@ -29,8 +29,13 @@ struct XTerm
     std::string shadow_line;     // ... and this is what its NUL-terminating accessor gave
     bool shadow_line_ok = true;
 
-    XTerm(unsigned cap_, unsigned H, Sink *sink) : cap(cap_)
+    XTerm(unsigned cap_, unsigned H, Sink *sink) { reinit(cap_, H, sink); }
+    void set_echo(bool on) { vt.set_echo(on ? 1 : 0); }
+    // init() on the same objects: first use, or a new session with another capacity / history depth
+    void reinit(unsigned cap_, unsigned H, Sink *sink)
     {
+        cap = cap_;
+        shadow_newline = false;
         vt.init(cap, H);
         vt.set_write_callback(igris::delegate<void, const char *, unsigned int>(x_write, (void *)sink));
         vt.set_execute_callback(igris::delegate<void, const char *, unsigned int>(x_exec, (void *)sink));
@@ -86,6 +91,8 @@ struct XTerm
 void t_vterm_cxx(Src &s, Case &c) { run_terminal<XTerm>(s, c, 0, "vterm_cxx"); }
 void t_vterm_cxx_enum(Src &s, Case &c) { run_terminal<XTerm>(s, c, 1, "vterm_cxx"); }
 void t_vterm_cxx_long(Src &s, Case &c) { run_terminal<XTerm>(s, c, 2, "vterm_cxx"); }
+void t_vterm_cxx_reinit(Src &s, Case &c) { run_terminal<XTerm>(s, c, 3, "vterm_cxx"); }
+void t_vterm_cxx_silent(Src &s, Case &c) { run_terminal<XTerm>(s, c, 4, "vterm_cxx"); }
 
 } // namespace
 
@@ -94,6 +101,10 @@ VP_TARGET("vterm_cxx", t_vterm_cxx,
           "non-trivial = an edit with the cursor inside the line, a history recall after >= 2 stored lines, or typing into a full line");
 VP_TARGET("vterm_cxx_long", t_vterm_cxx_long,
           "igris::vtermxx with line capacity 250..262: same generator and checks as vterm_c_long");
+VP_TARGET("vterm_cxx_reinit", t_vterm_cxx_reinit,
+          "igris::vtermxx (and the stand-alone igris::readline) used for a first session, then init() again on the same objects with another capacity and history depth: "
+          "generator and checks of vterm_c_reinit");
+VP_TARGET("vterm_cxx_silent", t_vterm_cxx_silent, "igris::vtermxx with set_echo(0): generator and checks of vterm_c_silent");
 VP_TARGET("vterm_cxx_enum", t_vterm_cxx_enum,
           "exhaustive (igris::vtermxx): every sequence of <= 5 (quick) / <= 7 (thorough) keys over {a,b,BS,LEFT,RIGHT,DEL,UP,DOWN,CR,LF,^C,ESC-x} x capacity {2,3,4,8} x history depth {1,2}",
           term_enum_size);
